@@ -187,6 +187,13 @@ class Builder(object):
         from .framework import GcodeTable
         return GcodeTable(self.interp.program, self.ctx)
 
+    def settings(self, values, is_global=False):
+        from .framework import Settings
+        st = Settings(values)
+        if is_global:
+            self.ctx.global_settings = st
+        return st
+
     def plugin_manager(self):
         from .framework import PluginManager
         return PluginManager()
@@ -289,6 +296,9 @@ def apply_contract(interp, con, finfo, full_args, kwargs, node):
             raise PyExc(raised, (ctx.string("exc.msg", record=False),))
         res = con.summary_fn(f)
         f.result = res
+        if con.log_calls:
+            ctx.ghost.setdefault("delegated", []).append(
+                (finfo.name, dict((k, v) for k, v in locs.items() if k != "self"), res))
         return res
     # havoc the frame (also on exceptional exits: the clauses say what holds then)
     for path in (con.modifies_ or []):
